@@ -22,7 +22,9 @@ from vlib.models import odxlink as M
 PROPERTY = "C10"
 RULE = ("one generated document set (1..3 containers x 1..3 layers, colliding local ids) loaded through "
         "Database.add_odx_file/refresh in strict mode; every reference site compared with the model's expected "
-        "uid; negative sets must raise; then retarget_snrefs to one layer and compare again.  non-trivial = "
+        "uid; negative sets must raise; then retarget_snrefs to one layer and compare again; then a generated history of "
+        "edits of the loaded tree (remove / restore / change id / replace by copy), each followed by refresh() and "
+        "compared with the model of the edited configuration.  non-trivial = "
         ">=2 documents (or two sibling layers of one container) carry a local id that is referenced, or a DOCREF / IMPORT-REF / inherited SNREF is "
         "present, or the set is negative; distinct = digest of the document-set IR")
 ASSUMPTIONS = [
@@ -34,6 +36,8 @@ ASSUMPTIONS = [
     "whether objects visible only through IMPORT-REF can be named by SNREF is not asserted; inheritance conflicts between parents, NOT-INHERITED lists and cross-kind name shadowing are left to C09 (not generated)",
     "TABLE-ROW-SNREF on TABLE-KEY, ENV-DATA-DESC references, PROT-STACK-SNREF, COMPARAM-REF, FUNCT-CLASS/STATE references, DIAG-COMM-SNREF of table connectors and DYNAMIC-LENGTH-FIELD / END-OF-PDU-FIELD are not generated",
     "any exception raised by add_odx_file/refresh counts as 'loading fails'",
+    "history stage: the loaded tree is edited with plain list operations on the raw layer (pop/append on the NamedItemLists of the DIAG-DATA-DICTIONARY-SPEC, requests, responses, insert/pop on diag_comms_raw), assignment of odx_id, a deepcopy of a DATA-OBJECT-PROP; DiagDataDictionarySpec.__post_init__() is re-run after editing its lists (the concatenated DOP list is built there); after Database.refresh() the model of the edited configuration is the oracle; a refresh() that raised does not prevent a later successful refresh()",
+    "short-name references of a table row / service included into another layer by TABLE-ROW-REF / DIAG-COMM-REF are resolved in the layer that defines the row / service; PROTOCOL-SNREF names one of the PROTOCOL layers among the defining layer and its transitive parents",
 ]
 MUST_HIT = [
     "rk:PARENT-REF", "rk:IMPORT-REF", "rk:COMPARAM-SPEC-REF", "rk:DIAG-COMM-REF", "rk:REQUEST-REF", "rk:POS-RESPONSE-REF",
@@ -42,6 +46,10 @@ MUST_HIT = [
     "rk:DYN-END-DOP-REF", "rk:SWITCH-KEY/DATA-OBJECT-PROP-REF", "rk:CASE/STRUCTURE-REF", "rk:CASE/STRUCTURE-SNREF",
     "rk:DEFAULT-CASE/STRUCTURE-REF", "rk:DEFAULT-CASE/STRUCTURE-SNREF", "rk:KEY-DOP-REF", "rk:TABLE-ROW/STRUCTURE-REF",
     "rk:TABLE-ROW/STRUCTURE-SNREF", "rk:TABLE-ROW/DATA-OBJECT-PROP-REF", "rk:TABLE-ROW/DATA-OBJECT-PROP-SNREF",
+    "rk:TABLE/TABLE-ROW-REF", "rk:PROTOCOL-SNREF", "included-row-snref-shadowed", "included-service-protocol-snref",
+    "bad:protocol-not-applicable",
+    "history", "history:remove", "history:restore", "history:rename", "history:replace", "history:refresh-raised",
+    "history:resolves-again", "history:rebinds",
     "doc:none", "doc:LAYER", "doc:CONTAINER", "via:import", "via:container", "id-collision-referenced",
     "snref-inherited", "sibling-id-reuse", "sibling-id-reuse:own-object-without-docref",
     "sibling-id-reuse:docref-to-layer", "positive-loaded", "negative", "retarget", "retarget-rebinds", "retarget-rebinds-grandparent",
@@ -76,6 +84,61 @@ def _load(case):
         exceptions.strict_mode = old
 
 
+def _refresh(db):
+    """db.refresh() in strict mode -> None or the exception"""
+    from odxtools import exceptions
+    old = exceptions.strict_mode
+    exceptions.strict_mode = True
+    try:
+        with warnings.catch_warnings():
+            warnings.simplefilter("ignore")
+            try:
+                db.refresh()
+            except Exception as e:   # noqa: BLE001 - any exception is "refresh fails"
+                return e
+        return None
+    finally:
+        exceptions.strict_mode = old
+
+
+def _tree_list(db, layer_sn, lk):
+    raw = db.diag_layers[layer_sn].diag_layer_raw
+    if lk == "svcs":
+        return raw.diag_comms_raw, None
+    if lk in ("reqs", "poss", "negs"):
+        return {"reqs": raw.requests, "poss": raw.positive_responses, "negs": raw.negative_responses}[lk], None
+    dd = raw.diag_data_dictionary_spec
+    return {"dops": dd.data_object_props, "structs": dd.structures, "tables": dd.tables, "sfields": dd.static_fields,
+            "demfs": dd.dynamic_endmarker_fields, "muxs": dd.muxs}[lk], dd
+
+
+def _edit_tree(db, op, stash, ir_after):
+    """the same history step on the loaded odxtools object tree (plain list operations on the
+    raw layer's lists, assignment of odx_id)"""
+    import copy
+    from odxtools.odxlink import OdxLinkId
+    lst, dd = _tree_list(db, op["layer"], op["lk"])
+    if op["op"] == "remove":
+        stash["obj"] = lst.pop(op["i"])
+    elif op["op"] == "restore":
+        if op["lk"] == "svcs":
+            # services are kept in front of the DIAG-COMM-REFs (that is how the sites are indexed)
+            l = [x for _, x in M.iter_layers(ir_after) if x["sn"] == op["layer"]][0]
+            lst.insert(len(l["svcs"]) - 1, stash["obj"])
+        else:
+            lst.append(stash["obj"])
+    elif op["op"] == "rename":
+        o = lst[op["i"]]
+        o.odx_id = OdxLinkId(op["id"], o.odx_id.doc_fragments)
+    elif op["op"] == "replace":
+        o = lst.pop(op["i"])
+        n = copy.deepcopy(o)
+        n.long_name = f"uid:{op['uid']}"
+        lst.append(n)
+    if dd is not None:
+        dd.__post_init__()     # rebuilds the concatenated list of all DOP kinds of the raw dictionary
+
+
 class Unbound(Exception):
     pass
 
@@ -107,6 +170,8 @@ def _bound(db, layer_ir, site):
             svc = raw.diag_comms[path[1]]
             if path[2] == "request":
                 return svc.request
+            if path[2] == "prot":
+                return svc.protocols[path[3]]
             return (svc.positive_responses if path[2] == "pos" else svc.negative_responses)[path[3]]
         dd = raw.diag_data_dictionary_spec
         if h in ("reqs", "poss", "negs", "structs"):
@@ -140,6 +205,8 @@ def _bound(db, layer_ir, site):
             t = dd.tables[path[1]]
             if path[2] == "keydop":
                 return t.key_dop
+            if path[2] == "rowref":
+                return t.table_rows[path[3]]
             row = t.table_rows_raw[path[3]]
             return row.structure if layer_ir["tables"][path[1]]["rows"][path[3]]["tkind"] == "struct" else row.dop
     except Unbound:
@@ -208,6 +275,46 @@ def _site_ref(case, site):
     raise AssertionError("site not found")
 
 
+def _included_classes(m: M.Model, classes, feats):
+    """objects included by reference into another layer whose short-name references must stay in
+    the context of the DEFINING layer"""
+    by_path = {(s["layer"], tuple(s["path"])): s for s in m.sites}
+    for s in m.sites:
+        if s["status"] != "ok":
+            continue
+        if s["rk"] == "TABLE/TABLE-ROW-REF":
+            row = m.obj[s["allowed"][0]]
+            if row["layer"] == s["layer"]:
+                continue
+            # the row's own SNREF site (owned by the defining layer)
+            for t in m.sites:
+                if t["layer"] == row["layer"] and t["form"] == "sn" and t["status"] == "ok" and \
+                        t["rk"].startswith("TABLE-ROW/") and _row_uid(m, t) == s["allowed"][0]:
+                    here = sorted(m.view(s["layer"], t["cat"]).get(t["name"], ()))
+                    if here != t["allowed"]:
+                        # the including layer sees another (or no) object under that short name
+                        classes.add("included-row-snref-shadowed")
+                        feats.add("included-row")
+        elif s["rk"] == "DIAG-COMM-REF":
+            svc = m.obj[s["allowed"][0]]
+            if svc["layer"] == s["layer"]:
+                continue
+            for t in m.sites:
+                if t["layer"] == svc["layer"] and t["rk"] == "PROTOCOL-SNREF" and t["status"] == "ok" and \
+                        _svc_uid(m, t) == s["allowed"][0] and t["name"] not in m.protocols(s["layer"]):
+                    classes.add("included-service-protocol-snref")
+                    feats.add("included-service")
+
+
+def _row_uid(m, site):
+    l = m.layer[site["layer"]]
+    return l["tables"][site["path"][1]]["rows"][site["path"][3]].get("uid")
+
+
+def _svc_uid(m, site):
+    return m.layer[site["layer"]]["svcs"][site["path"][1]]["uid"]
+
+
 def evaluate(case):
     """-> (failures, classes, nontrivial)"""
     m = M.Model(case)
@@ -240,6 +347,7 @@ def evaluate(case):
             classes.add("tag:" + s["tag"])
         if s["rk"] == "IMPORT-REF":
             feats.add("import")
+    _included_classes(m, classes, feats)
     if su["sibling_reuse"]:
         classes.add("sibling-id-reuse")
     if su["collide"]:
@@ -348,7 +456,75 @@ def evaluate(case):
                         f"after retarget_snrefs(db, {tgt}): {s['rk']} at {s['layer']}/{'/'.join(map(str, s['path']))} "
                         f"must name uid {want} (before: {s['allowed']}) but is bound to uid:{got} {note}",
                         f"retarget:{s['rk']}:{'moved' if want != s['allowed'] else 'kept'}", rk=s["rk"]))
+    if not fails and case.get("history"):
+        fails = _history(case, db, m, classes, fail)
+        nontrivial = True
     return fails, classes, nontrivial
+
+
+def _history(case, db, m0, classes, fail):
+    """edit the loaded tree step by step; after every refresh() the model of the edited
+    configuration is the oracle (R6)"""
+    fails = []
+    cur = {k: v for k, v in case.items() if k != "history"}
+    stash_ir, stash_tree = {}, {}
+    prev_m, prev_raised = m0, False
+    for step, op in enumerate(case.get("history") or []):
+        cur = M.apply_edit(cur, op, stash_ir)
+        _edit_tree(db, op, stash_tree, cur)
+        m = M.Model(cur)
+        su = m.summary()
+        layers = {l["sn"]: l for _, l in M.iter_layers(cur)}
+        classes.add("history")
+        classes.add("history:" + op["op"])
+        exc = _refresh(db)
+        where = f"history step {step} ({op['op']} {op['layer']}/{op['lk']}" + (f"[{op['i']}]" if "i" in op else "") + ")"
+        if su["bad"]:
+            if exc is None:
+                bad = su["bad"]
+                if any(s["path"][0] in ("parent", "import") for s in bad):
+                    bad = [s for s in bad if s["path"][0] in ("parent", "import")]
+                for s in bad:
+                    got, note = (None, "import") if s["path"][0] == "import" else _bound_uid(db, layers[s["layer"]], s)
+                    stale = got is not None and got not in m.obj
+                    fails.append(fail(
+                        "history-must-raise",
+                        f"{where}: {s['rk']} at {s['layer']}/{'/'.join(map(str, s['path']))} has become unresolvable "
+                        f"({s['why']}, ref={_site_ref(cur, s)}) but refresh() succeeded in strict mode; bound to uid:{got}"
+                        + (" which is no longer part of the database" if stale else f" {note}"),
+                        f"history-must-raise:{op['op']}:{s['why']}:{s['rk']}", op=op["op"], why=s["why"], rk=s["rk"], stale=stale))
+                return fails
+            classes.add("history:refresh-raised")
+            prev_m, prev_raised = m, True
+            continue
+        if su["loose"] or su["conflicts"]:
+            classes.add("history:loose-step")
+            prev_m, prev_raised = m, exc is not None
+            continue
+        if exc is not None:
+            return [fail("history-must-load", f"{where}: the edited configuration has no bad reference but refresh() raised "
+                         f"{type(exc).__name__}: {exc}"[:600], f"history-must-load:{op['op']}:{type(exc).__name__}", op=op["op"])]
+        if prev_raised:
+            classes.add("history:resolves-again")
+        prev_by_path = {(s["layer"], tuple(s["path"])): s for s in prev_m.sites}
+        for s in m.sites:
+            if s["status"] != "ok" or s["path"][0] == "import":
+                continue
+            p = prev_by_path.get((s["layer"], tuple(s["path"])))
+            if op["op"] in ("remove", "replace") and p is not None and p["status"] == "ok" and p["allowed"] != s["allowed"]:
+                classes.add("history:rebinds")
+            got, note = _bound_uid(db, layers[s["layer"]], s)
+            if got not in s["allowed"]:
+                stale = got is not None and got not in m.obj
+                fails.append(fail(
+                    "history-wrong-target",
+                    f"{where}: {s['rk']} at {s['layer']}/{'/'.join(map(str, s['path']))} (ref={_site_ref(cur, s)}) must name "
+                    f"uid {s['allowed']} but is bound to uid:{got} {note}" + (" (object no longer in the database)" if stale else ""),
+                    f"history-wrong-target:{op['op']}:{s['rk']}", op=op["op"], rk=s["rk"], stale=stale))
+        if fails:
+            return fails
+        prev_m, prev_raised = m, False
+    return fails
 
 
 def replay(case):
